@@ -1,6 +1,6 @@
 //! Memory placement of haystacks and needles.
 //!
-//! Under Kani the buffers are stack arrays inside a 64-byte aligned struct;
+//! Under Kani the buffers are plain stack arrays (exact size, no padding);
 //! CBMC's pointer-to-integer cast yields `object-id || offset`, so the low
 //! bits of `ptr as usize` are the offset inside the allocation and alignment
 //! is varied by slicing at a (symbolic or constant) offset. A buffer of
@@ -12,9 +12,16 @@
 //! (VERIF_PLACE=left) a PROT_NONE page, keeping the address modulo 64 that
 //! the Kani run used when possible. An out-of-bounds read then faults.
 
-/// A 64-byte aligned byte buffer.
+/// A byte buffer of exactly `N` bytes. No `align(..)` attribute on purpose: an
+/// aligned struct is padded to a multiple of its alignment and CBMC would
+/// treat the padding as part of the object, so over-reads of up to 63 bytes
+/// would go unnoticed (this was the case in the first version and was found
+/// by a seeded change). CBMC gives every object a base address whose low bits
+/// are zero (`ptr as usize` = object-id || offset), so the buffer start is
+/// aligned for the alignment arithmetic of the code under test anyway; in
+/// native replay `place()` relocates the bytes.
 #[derive(Clone, Copy)]
-#[repr(C, align(64))]
+#[repr(C)]
 pub struct Buf<const N: usize>(pub [u8; N]);
 
 #[cfg(kani)]
